@@ -13,7 +13,6 @@
 #define MIR_NO_IO 1
 #define MIR_NO_SCAN 1
 #define H_NO_LEDGER 1
-#define H_ERROR_PATH_WITNESS 1
 #ifndef H_HTAB_MODEL_CAP
 #define H_HTAB_MODEL_CAP 8
 #endif
@@ -66,7 +65,21 @@ void harness (void) {
   int t_kind = T_NONE, t_exported = 0, listed = 0, w_replace = 0, w_dup = 0, w_chain = 0;
   MIR_item_t t_item = NULL;
   for (int c = 0; c < H_NCALLS; c++) {
-    int k = (int) nd_below (K_NUM);
+    int k; /* assigned per case so that it is a CONSTANT on every path (cbmc --paths does not learn values from branch conditions) */
+#ifdef H_KINDS /* one concrete sequence (reachability witnesses) */
+    static const int h_kinds[H_NCALLS] = {H_KINDS};
+    switch (h_kinds[c]) {
+#else
+    switch ((int) nd_below (K_NUM)) {
+#endif
+    case 0: k = K_IMPORT; break;
+    case 1: k = K_EXPORT; break;
+    case 2: k = K_FORWARD; break;
+    case 3: k = K_PROTO; break;
+    case 4: k = K_DATA; break;
+    case 5: k = K_BSS; break;
+    default: k = K_FUNC; break;
+    }
     MIR_item_t it = &h_it[c];
     it->data = NULL; it->module = &h_m; it->ref_def = NULL; it->addr = NULL; it->export_p = FALSE; it->section_head_p = FALSE;
     switch (k) {
@@ -149,8 +162,10 @@ void harness (void) {
       t_exported = 1;
     H_ASSERT (t_item == NULL || t_kind == T_EXPORT || t_kind == T_FORWARD || t_kind == T_IMPORT || (t_item->export_p != 0) == t_exported, "export_p of the table's definition");
   }
+#ifdef H_WIT_MERGE
   if (w_replace) H_WITNESS ("a declaration replaced by its definition");
   if (w_dup) H_WITNESS ("a duplicate declaration merged");
   if (w_chain) H_WITNESS ("a declaration after the definition chained to it");
   H_WITNESS ("end");
+#endif
 }
